@@ -45,7 +45,7 @@ func ruleC05Moves(cx *Ctx) {
 	counterOf := map[string]string{"window": "windowWeightedSize", "protected": "mainProtectedWeightedSize"}
 	inPred := map[string]string{"window": "InWindow", "probation": "InMainProbation", "protected": "InMainProtected"}
 	for _, fnName := range []string{"access", "evictFromWindow", "increaseWindow", "decreaseWindow", "demoteFromMainProtected"} {
-		r := cx.runOp(rule, polSpec(fnName, fnName))
+		r := cx.runOp(rule, opSpec{fnName, "policy", fnName, nil, "moves", nil})
 		if r == nil {
 			continue
 		}
